@@ -1,33 +1,39 @@
 """C15 — malformed bytes are rejected with an error, never a crash.
 
-Every decoder entry point is executed symbolically (from the MIR of the current tree)
-over an input buffer of symbolic length and content.  The assertions are: no path ends
-in a panic; every allocation request is bounded by 16 MiB or proportional to the input;
-no loop runs past the bound without consuming input.  Counterexamples are replayed
-against the natively built crates before they are reported.
+Every decoder / reader entry point is executed symbolically (from the MIR of the current
+tree) over an input buffer of symbolic length and content.  The assertions are: no path
+ends in a panic; every allocation request is bounded by 16 MiB or proportional to the
+input; no loop runs past the bound without consuming input.  Every explored path's witness
+input is replayed against the natively built crates (translator validation), and a
+counterexample is reported only when the native run reproduces it.
 """
+import json
 import time
 import z3
 
 from .common import Check, Replayer
+from . import par
 from mirsym import harness as H
 from mirsym import models as M
-from mirsym.engine import (Cell, Ref, Int, EnumV, Inconclusive, int_binop, bz3, b_and, b_or, b_not,
-                           to_bool)
+from mirsym.engine import (Cell, Ref, Int, EnumV, Agg, Inconclusive, int_binop, bz3)
 
 PROP = "C15"
 
-# (entry kind, crate, type name, replay op)
-DECODERS = [
-    ("sos_core", "EventKind"), ("sos_core", "UtcDateTime"), ("sos_core", "CommitHash"),
-    ("sos_core", "Comparison"), ("sos_core", "AeadPack"), ("sos_core", "Cipher"),
-    ("sos_core", "KeyDerivation"), ("sos_core", "VaultEntry"), ("sos_core", "VaultCommit"),
-    ("sos_core", "WriteEvent"), ("sos_core", "AccountEvent"), ("sos_core", "DeviceEvent"),
-    ("sos_core", "FileEvent"), ("sos_core", "EventRecord"),
-    ("sos_core", "CommitProof"), ("sos_core", "CommitState"),
-]
+CRATES = ["sos_core", "sos_vault", "sos_filesystem"]
 
-ELEM_SIZE = {"u8": 1, "u16": 2, "u32": 4, "u64": 8, "usize": 8, "i64": 8, "[u8; 32]": 32}
+DECODERS = [
+    "EventKind", "UtcDateTime", "CommitHash", "Comparison", "AeadPack", "Cipher", "KeyDerivation",
+    "VaultEntry", "VaultCommit", "WriteEvent", "AccountEvent", "DeviceEvent", "FileEvent",
+    "EventRecord", "CommitProof", "CommitState",
+    # sos-vault
+    "VaultMeta", "Summary", "SharedAccess", "Header", "Vault", "SecretMeta", "SecretRow", "Secret",
+]
+# entries whose path count grows quickly get a smaller input bound in the quick tier
+SMALL = {"Header": 48, "Vault": 48, "Secret": 32, "SecretRow": 48, "Summary": 48, "SecretMeta": 48}
+# the first byte is a kind tag with many variants: one entry per tag value (run in parallel)
+SPLIT_FIRST_BYTE = {"Secret": 18}
+
+ELEM_SIZE = {"u8": 1, "u16": 2, "u32": 4, "u64": 8, "usize": 8, "i64": 8, "[u8; 32]": 32, "map-entry": 16}
 MAX_OK_ALLOC = 16 * 1024 * 1024
 
 
@@ -37,17 +43,38 @@ def site_key(prog, err):
     return "site=%s|%s|%s" % (prog.pretty(fn), kind, (msg or "").strip())
 
 
-def decode_thunk(eng, ty, max_len):
-    def thunk(ctx):
-        inp = H.SymInput(ctx, max_len)
-        ctx.inp = inp
-        rd = Cell(inp.reader())
-        val = Cell(M.default_value(eng, ctx, ty, None))
-        fut = eng.call_named("<%s as binary_stream::futures::Decodable>::decode::<'_, '_, '_, R>" % ty,
-                             [Ref(val), Ref(rd)], None)
-        r = H.poll_to_result(eng, ctx, fut)
-        return (r, val.v)
-    return thunk
+class DecodeEntry:
+    def __init__(self, ty, max_len, first=None):
+        self.ty = ty
+        self.name = "decode:%s" % ty
+        self.max_len = max_len
+        self.first = first      # (lo, hi): split the input space on the value of the first byte
+        if first is not None:
+            self.name += "[byte0=%d..%d]" % first
+
+    def thunk(self, eng):
+        ty = self.ty
+        max_len = self.max_len
+
+        def thunk(ctx):
+            inp = H.SymInput(ctx, max_len)
+            ctx.inp = inp
+            if self.first is not None:
+                b0 = z3.Select(inp.arr, z3.BitVecVal(0, 64))
+                ctx.add(z3.And(z3.UGE(inp.n, 1), z3.UGE(b0, self.first[0]), z3.ULE(b0, self.first[1])))
+            rd = Cell(inp.reader())
+            val = Cell(M.default_value(eng, ctx, ty, None))
+            fut = eng.call_named("<%s as binary_stream::futures::Decodable>::decode::<'_, '_, '_, R>" % ty,
+                                 [Ref(val), Ref(rd)], None)
+            r = H.poll_to_result(eng, ctx, fut)
+            return (r, val.v)
+        return thunk
+
+    def case(self, data):
+        return {"op": "decode", "ty": self.ty, "bytes": data.hex()}
+
+    def outcome(self, value):
+        return "ok" if value[0].variant == "Ok" else "err"
 
 
 def alloc_violation(res, ev):
@@ -66,130 +93,192 @@ def alloc_violation(res, ev):
     return z3.And(z3.UGT(sz, z3.BitVecVal(MAX_OK_ALLOC, 128)), z3.UGT(sz, lim))
 
 
+def run_entry(prog, entry, loop_bound, max_paths):
+    """explore one entry; returns a JSON-serialisable summary"""
+    out = {"entry": entry.name, "states": 0, "queries": 0, "solver_s": 0.0, "obligations": 0, "discharged": 0,
+           "replays_ok": 0, "replays_bad": 0, "inconclusive": [], "gaps": {}, "reports": [], "kinds": {},
+           "samples": [], "stubs": [], "validated": 0, "approx": {}}
+    eng = H.new_engine(prog, loop_bound=loop_bound, max_paths=max_paths)
+    eng.max_input = entry.max_len
+    rep = Replayer("dev")
+    rep.built = True
+    t0 = time.time()
+
+    def gap(what):
+        k = "%s @ %s" % (what, entry.name)
+        out["gaps"][k] = out["gaps"].get(k, 0) + 1
+
+    def on_result(res):
+        out["states"] += 1
+        out["kinds"][res.kind] = out["kinds"].get(res.kind, 0) + 1
+        if res.kind == "infeasible":
+            return
+        if res.kind == "untranslatable":
+            gap(res.err[0])
+            return
+        if res.kind == "bound":
+            gap("bound: %s" % (res.err[0],))
+            return
+        out["obligations"] += 1
+        m = H.witness_for(res)
+        if m is None:
+            out["inconclusive"].append("%s: no witness for a feasible path" % entry.name)
+            return
+        data = res.ctx.inp.witness(m)
+        case = entry.case(data)
+        nat = rep.run(case)
+        nondet = any(k == "nondet_model" for k, _ in res.events)
+        for k, ev in res.events:
+            if k == "approx":
+                out["approx"][ev["what"]] = out["approx"].get(ev["what"], 0) + 1
+        if res.kind == "panic":
+            key = site_key(prog, res.err)
+            if nat["outcome"] in ("panic", "abort"):
+                out["replays_ok"] += 1
+                desc = "%s panics on %d input bytes %s: %s" % (entry.name, len(data), data.hex()[:64], nat.get("detail"))
+                out["reports"].append((key, desc, dict(case, expect="no panic", native=nat)))
+            elif nondet:
+                gap("panic behind an assumed-success external parser: %s" % res.err[0])
+            else:
+                out["replays_bad"] += 1
+                out["inconclusive"].append("%s: engine predicts panic %r but native run says %r (input %s)" % (
+                    entry.name, res.err[0], nat, data.hex()))
+            return
+        out["discharged"] += 1
+        want = entry.outcome(res.value)
+        if nat["outcome"] in ("panic", "abort"):
+            out["replays_bad"] += 1
+            out["inconclusive"].append("%s: native run %r where the engine saw %s (input %s)" % (entry.name, nat, want, data.hex()))
+        elif nondet:
+            pass
+        elif nat["outcome"] == want:
+            out["replays_ok"] += 1
+            out["validated"] += 1
+        else:
+            out["replays_bad"] += 1
+            out["inconclusive"].append("%s: engine says %s, native says %r for input %s" % (entry.name, want, nat, data.hex()))
+        if len(out["samples"]) < 2 and res.kind == "ret":
+            out["samples"].append({"entry": entry.name, "outcome": want, "input": data.hex()})
+        for kind, ev in res.events:
+            if kind != "alloc":
+                continue
+            out["obligations"] += 1
+            cond = alloc_violation(res, ev)
+            if cond is None:
+                out["discharged"] += 1
+                continue
+            m2 = H.witness_for(res, cond)
+            out["queries"] += 1
+            if m2 is None:
+                out["discharged"] += 1
+                continue
+            data2 = res.ctx.inp.witness(m2)
+            case2 = entry.case(data2)
+            nat2 = rep.run(case2)
+            big = nat2.get("max_single_alloc", 0)
+            if nat2["outcome"] == "abort" or (big > MAX_OK_ALLOC and big > 8 * len(data2) + 64):
+                out["replays_ok"] += 1
+                key = "site=%s|alloc|%s" % (prog.pretty(ev.get("site")), ev.get("what"))
+                desc = "%s requests a single allocation of %s bytes for a %d-byte input %s" % (
+                    entry.name, big, len(data2), data2.hex()[:64])
+                out["reports"].append((key, desc, dict(case2, expect="allocation <= 16MiB or proportional", native=nat2)))
+            else:
+                out["replays_bad"] += 1
+                out["inconclusive"].append("%s: engine predicts oversized allocation, native max_single_alloc=%s (input %s)" % (
+                    entry.name, big, data2.hex()))
+
+    try:
+        eng.explore(entry.thunk(eng), on_result=on_result)
+    except Inconclusive as e:
+        out["inconclusive"].append("%s: %s" % (entry.name, e))
+    rep.close()
+    st = eng.stats
+    out["queries"] += st.queries
+    out["solver_s"] = st.solver_s
+    out["info"] = {"paths": out["states"], "outcomes": out["kinds"], "queries": st.queries,
+                   "mir_bodies_executed": len(st.blocks_hit),
+                   "mir_blocks_executed": sum(len(v) for v in st.blocks_hit.values()),
+                   "validated_natively": out["validated"], "input_max": entry.max_len,
+                   "seconds": round(time.time() - t0, 2)}
+    out["stubs"] = sorted(set(c.split("::<")[0][:80] for c in st.calls_modelled))
+    return out
+
+
+def entries_for(tier):
+    from . import c15_streams
+    max_len = 64 if tier == "quick" else 160
+    es = []
+    for ty in DECODERS:
+        ml = max_len
+        if ty in SMALL:
+            ml = SMALL[ty] if tier == "quick" else min(max_len, SMALL[ty] * 2)
+        if ty in SPLIT_FIRST_BYTE:
+            k = SPLIT_FIRST_BYTE[ty]
+            es.append(DecodeEntry(ty, 0))           # the empty input
+            for b in range(k):
+                es.append(DecodeEntry(ty, ml, (b, b)))
+            es.append(DecodeEntry(ty, ml, (k, 255)))
+        else:
+            es.append(DecodeEntry(ty, ml))
+    es.extend(c15_streams.entries(tier))
+    return es, max_len
+
+
 def run(tier, regenerate=True):
     chk = Check(PROP, tier)
-    max_len = 64 if tier == "quick" else 200
-    chk.bounds = {"input_length_max": max_len, "loop_bound": 48, "input": "symbolic length, unconstrained bytes"}
-    prog = H.load_program(["sos_core"], regenerate=regenerate)
+    entries, max_len = entries_for(tier)
+    loop_bound = 48
+    chk.bounds = {"input_length_max": max_len, "loop_bound": loop_bound,
+                  "input": "symbolic length, unconstrained bytes",
+                  "per_entry_input_max": {e.name: e.max_len for e in entries}}
+    prog = H.load_program(CRATES, regenerate=regenerate)
     chk.extra["mir_regeneration_s"] = prog.timings
     rep = Replayer("dev")
     rep.build()
-    t_all = time.time()
-    for crate, ty in DECODERS:
-        eng = H.new_engine(prog, loop_bound=48)
-        entry = "decode:%s" % ty
-        t0 = time.time()
-        try:
-            results = eng.explore(decode_thunk(eng, ty, max_len))
-        except Inconclusive as e:
-            chk.inconclusive.append("%s: %s" % (entry, e))
+    chk.extra["replay_build_s"] = round(rep.build_s, 1)
+    max_paths = 4000 if tier == "quick" else 40000
+    results = par.map_entries(lambda e: run_entry(prog, e, loop_bound, max_paths), entries)
+    approx = {}
+    for out in results:
+        if isinstance(out, Exception) or out is None:
+            chk.inconclusive.append("worker failed: %r" % (out,))
             continue
-        st = eng.stats
-        chk.states += len(results)
-        chk.transitions += st.queries
-        chk.solver_s += st.solver_s
-        kinds = {}
-        n_valid = 0
-        for res in results:
-            kinds[res.kind] = kinds.get(res.kind, 0) + 1
-            if res.kind == "infeasible":
-                continue
-            if res.kind == "untranslatable":
-                chk.gap(res.err[0], entry)
-                continue
-            if res.kind == "bound":
-                chk.gap("bound: %s" % (res.err[0] if isinstance(res.err, tuple) else res.err), entry)
-                continue
-            # obligation 1: no panic
-            chk.obligations += 1
-            m = H.witness_for(res)
-            if m is None:
-                chk.inconclusive.append("%s: no witness for a feasible path" % entry)
-                continue
-            data = res.ctx.inp.witness(m)
-            case = {"op": "decode", "ty": ty, "bytes": data.hex()}
-            nat = rep.run(case)
-            if res.kind == "panic":
-                key = site_key(prog, res.err)
-                if nat["outcome"] in ("panic", "abort"):
-                    chk.replays_ok += 1
-                    desc = "%s panics on %d input bytes %s: %s" % (entry, len(data), data.hex()[:48], nat.get("detail"))
-                    chk.report(key, desc, dict(case, expect="no panic", native=nat))
-                else:
-                    chk.replays_bad += 1
-                    chk.inconclusive.append("%s: engine predicts panic %r but native run says %r (input %s)" % (
-                        entry, res.err[0], nat, data.hex()))
-                continue
-            chk.discharged += 1
-            # differential validation of the translator on this path
-            want = "ok" if res.value[0].variant == "Ok" else "err"
-            if nat["outcome"] == want:
-                chk.replays_ok += 1
-                n_valid += 1
-            else:
-                chk.replays_bad += 1
-                chk.inconclusive.append("%s: engine says %s, native says %r for input %s" % (entry, want, nat, data.hex()))
-            # obligation 2: allocations in proportion
-            for kind, ev in res.events:
-                if kind != "alloc":
-                    continue
-                chk.obligations += 1
-                cond = alloc_violation(res, ev)
-                if cond is None:
-                    chk.discharged += 1
-                    continue
-                m2 = H.witness_for(res, cond)
-                chk.transitions += 1
-                if m2 is None:
-                    chk.discharged += 1
-                    continue
-                data2 = res.ctx.inp.witness(m2)
-                case2 = {"op": "decode", "ty": ty, "bytes": data2.hex()}
-                nat2 = rep.run(case2)
-                big = nat2.get("max_single_alloc", 0)
-                if nat2["outcome"] == "abort" or (big > MAX_OK_ALLOC and big > 8 * len(data2) + 64):
-                    chk.replays_ok += 1
-                    key = "site=%s|alloc|%s" % (prog.pretty(ev.get("site")), ev.get("what"))
-                    desc = "%s requests a single allocation of %s bytes for a %d-byte input %s" % (
-                        entry, big, len(data2), data2.hex()[:48])
-                    chk.report(key, desc, dict(case2, expect="allocation <= 16MiB or proportional", native=nat2))
-                else:
-                    chk.replays_bad += 1
-                    chk.inconclusive.append("%s: engine predicts oversized allocation, native max_single_alloc=%s (input %s)" % (
-                        entry, big, data2.hex()))
-        blocks = sum(len(v) for v in st.blocks_hit.values())
-        chk.functions[entry] = {"paths": len(results), "outcomes": kinds, "queries": st.queries,
-                                "mir_bodies_executed": len(st.blocks_hit), "mir_blocks_executed": blocks,
-                                "validated_natively": n_valid, "seconds": round(time.time() - t0, 2)}
-        for c in st.calls_modelled:
-            chk.stubs.add(c.split("::<")[0][:80])
-        if results and len(chk.samples) < 12:
-            for res in results:
-                if res.kind == "ret":
-                    m = H.witness_for(res)
-                    if m is not None:
-                        chk.samples.append({"entry": entry, "outcome": res.value[0].variant,
-                                            "input": res.ctx.inp.witness(m).hex()})
-                        break
-    rep.close()
+        chk.states += out["states"]
+        chk.transitions += out["queries"]
+        chk.solver_s += out["solver_s"]
+        chk.obligations += out["obligations"]
+        chk.discharged += out["discharged"]
+        chk.replays_ok += out["replays_ok"]
+        chk.replays_bad += out["replays_bad"]
+        chk.inconclusive.extend(out["inconclusive"])
+        for k, n in out["gaps"].items():
+            chk.gaps[k] = chk.gaps.get(k, 0) + n
+        for key, desc, case in out["reports"]:
+            chk.report(key, desc, case)
+        chk.functions[out["entry"]] = out["info"]
+        chk.samples.extend(out["samples"])
+        chk.stubs.update(out["stubs"])
+        for k, n in out["approx"].items():
+            approx[k] = approx.get(k, 0) + n
+    chk.extra["approximations"] = approx
     chk.assumptions = [
         "single-poll executor: every leaf future completes on first poll (no interleaving modelled)",
-        "BinaryReader/BinaryWriter, std collections, time and uuid are the models listed under stubs",
-        "input length <= %d bytes; loops unrolled <= 48 iterations per activation" % max_len,
+        "BinaryReader/BinaryWriter, std collections, time, uuid, secrecy are the models listed under stubs",
+        "input length bounded per entry (see bounds); loops unrolled <= %d iterations per activation" % loop_bound,
         "panics are checked for the dev profile (overflow checks on)",
+        "serde_json bodies, age recipient parsing, vcard/totp/url text formats are opaque (outside the claim)",
     ]
     return chk.finish(rule="one state = one explored path of an entry function over the symbolic input; "
                            "transitions = solver queries; every path's witness is replayed natively")
 
 
 def replay(path):
-    import json
     case = json.load(open(path))
     rep = Replayer("dev")
     nat = rep.run(case)
     rep.close()
     print(json.dumps(nat))
-    bad = nat["outcome"] in ("panic", "abort") or nat.get("max_single_alloc", 0) > MAX_OK_ALLOC
+    bad = nat["outcome"] in ("panic", "abort") or nat.get("max_single_alloc", 0) > max(MAX_OK_ALLOC, 0)
     if bad:
         print("VIOLATION property=%s replay=%s" % (PROP, path))
         return 1
